@@ -10,7 +10,7 @@ Reading: `sl.gval` = the value behind the slot guard as last mutated through it 
 drop has begun: `gmut` needs a live guard); `sl.closedAs = some r` = the entry's destructor has closed
 this field with result `r` (`Slot::close` / `LazySlot::close`); `sl.sentOk` = the guard's `tx.send` came
 before that (set by the `gSend` step to "not closed yet"); `s.dgBegun = 0` = no force-flush guard has
-begun to drop; the sink receives `closedVals s.slots` (theorem `c13_entry_slots`).
+begun to drop; the sink receives `closedVals s.slots` (theorem `c13_emitted_slots`).
 -/
 namespace KeepAlive
 
@@ -191,6 +191,40 @@ theorem c13_single_open {s1 s2 s3 : St} {j : Nat} {m m' : Mode} {v v' : Nat} {sl
     · rfl
   · cases h2
 
+/-- what the sink receives: the `emit` step appends exactly one entry whose slot fields are the close results
+of all fields (every field has been closed by then), and touches no slot. -/
+theorem c13_emitted_slots (h : step s .emit = some s') :
+    s'.appended = s.appended ++ [⟨s.plain, s.hits, closedVals s.slots⟩] ∧ allClosed s.slots = true ∧
+      s'.slots = s.slots := by
+  simp only [step, finishInner] at h
+  split at h
+  · rename_i hc
+    cases h
+    refine ⟨?_, hc.2, ?_⟩ <;> (repeat' split) <;> rfl
+  · cases h
+
+theorem closedVals_getElem? {l : List Slot} {i : Nat} {sl : Slot} (h : l[i]? = some sl) :
+    (closedVals l)[i]? = some (sl.closedAs.getD none) := by
+  simp [closedVals, h]
+
+/-- **C13 wait mode, at the level of the emitted entry.** When the entry is handed to the sink and no
+force-flush guard has begun to drop, every opened wait-mode slot `i` appears in it as `Some` of its guard's
+last value. -/
+theorem c13_wait_in_entry (hr : Reachable cfg s) (h : step s .emit = some s') {i : Nat} {sl : Slot}
+    (hsl : s.slots[i]? = some sl) (ho : sl.opened = true) (hw : sl.mode = .wait) (hd : s.dgBegun = 0) :
+    ∃ a, s'.appended = s.appended ++ [a] ∧ a.slots[i]? = some (some sl.gval) := by
+  obtain ⟨h1, h2, -⟩ := c13_emitted_slots h
+  refine ⟨_, h1, ?_⟩
+  have hm := mem_of_getElem? hsl
+  have hcl : sl.closedAs.isSome = true := by
+    simp only [allClosed, List.all_eq_true] at h2
+    exact h2 sl hm
+  cases hc : sl.closedAs with
+  | none => simp [hc] at hcl
+  | some r =>
+    have := c13_wait_never_lost hr hm hc ho hw hd
+    simp [closedVals_getElem? hsl, hc, this]
+
 /-- **C13 `Slot::close` is total.** Whenever a thread is inside the entry's destructor, its next step (close
 the next field, or hand the entry to the sink) is enabled: there is no state — in particular none after a
 cancelled `wait_for_data` — in which closing a slot has no result. -/
@@ -237,3 +271,5 @@ end KeepAlive
 #print axioms KeepAlive.c13_not_sent
 #print axioms KeepAlive.c13_single_open
 #print axioms KeepAlive.c13_close_total
+#print axioms KeepAlive.c13_emitted_slots
+#print axioms KeepAlive.c13_wait_in_entry
